@@ -835,6 +835,7 @@ static void InitFields(void) {
     AddInstTable(InstTable, "STQ", 1, DecodeLdStq);
     AddInstTable(InstTable, "LOOPT", 0, DecodeLoopt);
     AddInstTable(InstTable, "LRM", 0, DecodeLrm);
+    AddInstTable(InstTable, "LRW", 0, DecodeLrm);
     AddInstTable(InstTable, "MFCR", 0, DecodeMcr);
     AddInstTable(InstTable, "MTCR", 1, DecodeMcr);
     AddInstTable(InstTable, "MOVI", 0, DecodeMovi);
